@@ -213,8 +213,17 @@ def build_real(prog):
         return c
     kf, kb = prog.get("pad", [0, 0])
     c = lw.Circuit(kf + 2 * n + kb)
+    cross = bool(prog.get("cross")) and kf >= 1 and kb >= 1
+    f_, b_ = 0, kf + 2 * n + kb - 1
     for m in list(range(kf)) + list(range(kf + 2 * n, kf + 2 * n + kb)):
+        if cross and m in (f_, b_):
+            continue
         c.herald(0, m)
+    if cross:
+        # a crossed pair of heralds with different photon numbers: one photon enters on the first mode and is expected
+        # on the last, vacuum enters on the last and is expected on the first (a swap at the end routes it there)
+        c.herald(1, f_, b_)
+        c.herald(0, b_, f_)
     for name, q, kw in prog["gates"]:
         if name == "U":
             c.add(lw.Unitary(make_unitary("haar", 2, kw["seed"])), kf + 2 * q)
@@ -225,6 +234,8 @@ def build_real(prog):
             c.add(qubit.SWAP((a, a + 1), (a + 2, a + 3)), 0)
         else:
             c.add(getattr(qubit, name)(**kw), kf + 2 * q)
+    if cross:
+        c.mode_swaps({f_: b_, b_: f_})
     return c
 
 
